@@ -974,3 +974,150 @@ func ruleIVFAssignTrained(r *Run, p string, k *vecKind) {
 		r.Check(okErr, p+".TRAINED", k.Name+":"+fname, w.InstrPos(test)+" "+fname, "untrained ⇒ error", "the untrained outcome does not return an error")
 	}
 }
+
+// ruleHNSWDefaults: for every sign pattern of (M, efConstruction, efSearch) the constructor stores positive values
+// (a zero efSearch degenerates the layer search to a beam of width 1).
+func ruleHNSWDefaults(r *Run, rule string) {
+	w := r.W
+	fn := w.Fn("NewHNSWIndex")
+	r.Doc(rule, "a defaulted construction parameter stays 0: the search beam degenerates and recall collapses")
+	if fn == nil {
+		r.Unres(rule, "hnsw:ctor", "NewHNSWIndex not found")
+		return
+	}
+	r.Analysed("NewHNSWIndex")
+	site := w.Pos(fn.Pos()) + " NewHNSWIndex"
+	// int parameters after dim
+	var ps []*ssa.Parameter
+	for _, p := range fn.Params[1:] {
+		if bt, ok := p.Type().Underlying().(*types.Basic); ok && bt.Kind() == types.Int {
+			ps = append(ps, p)
+		}
+	}
+	if len(ps) != 3 {
+		r.Und(rule, "hnsw:ctor:params", site, fmt.Sprintf("%d int parameters after dim, expected 3", len(ps)))
+		return
+	}
+	var bad []string
+	states := 0
+	for mask := 0; mask < 8; mask++ {
+		pos := map[ssa.Value]bool{}
+		for i, p := range ps {
+			pos[p] = mask&(1<<i) != 0
+		}
+		decide := func(cond ssa.Value, pth *Path) (bool, bool) {
+			cnd, neg := stripNot(cond)
+			bo, ok := cnd.(*ssa.BinOp)
+			if !ok {
+				return false, false
+			}
+			// value of the left operand on this path
+			isPos, known := false, false
+			var val func(v ssa.Value, d int) (bool, bool)
+			val = func(v ssa.Value, d int) (bool, bool) {
+				if d > 6 {
+					return false, false
+				}
+				if p, ok := pos[v]; ok {
+					return p, true
+				}
+				switch x := v.(type) {
+				case *ssa.Const:
+					if x.Value != nil {
+						if s := x.Value.ExactString(); s != "" {
+							return !strings.HasPrefix(s, "-") && s != "0", true
+						}
+					}
+				case *ssa.Phi:
+					at := -1
+					for j, bb := range pth.Blocks {
+						if bb == x.Block() {
+							at = j
+						}
+					}
+					if at >= 0 {
+						if e := pth.PhiEdgeAt(x, at); e != nil {
+							return val(e, d+1)
+						}
+					}
+				}
+				return false, false
+			}
+			isPos, known = val(bo.X, 0)
+			if !known || !isZeroConst(bo.Y) {
+				return false, false
+			}
+			var v bool
+			switch bo.Op {
+			case token.LEQ:
+				v = !isPos
+			case token.GTR:
+				v = isPos
+			case token.LSS:
+				v = false
+				if !isPos {
+					return false, false // ≤0: could be 0 or negative
+				}
+			default:
+				return false, false
+			}
+			return v != neg, true
+		}
+		paths, _ := enumPaths(fn.Blocks[0], walkCfg{Decide: decide, MaxVisits: 1, MaxPaths: 400})
+		for _, pth := range paths {
+			if pth.End != EndReturn || classifyErr(pth.Ret) != ErrNil {
+				continue
+			}
+			states++
+			// the literal's fields
+			v := resultValue(pth.Ret, 0)
+			fields, ok := litFields(v)
+			if !ok {
+				bad = append(bad, "constructor result is not a struct literal")
+				continue
+			}
+			for _, f := range []string{"M", "efConstruction", "efSearch"} {
+				fv := fields[f]
+				var val func(v ssa.Value, d int) (bool, bool)
+				val = func(v ssa.Value, d int) (bool, bool) {
+					if d > 6 || v == nil {
+						return false, false
+					}
+					if p, ok := pos[v]; ok {
+						return p, true
+					}
+					switch x := v.(type) {
+					case *ssa.Const:
+						if x.Value != nil {
+							s := x.Value.ExactString()
+							return !strings.HasPrefix(s, "-") && s != "0", true
+						}
+					case *ssa.Phi:
+						at := -1
+						for j, bb := range pth.Blocks {
+							if bb == x.Block() {
+								at = j
+							}
+						}
+						if at >= 0 {
+							if e := pth.PhiEdgeAt(x, at); e != nil {
+								return val(e, d+1)
+							}
+						}
+					}
+					return false, false
+				}
+				p, known := val(fv, 0)
+				if !known || !p {
+					bad = append(bad, fmt.Sprintf("M>0:%v efConstruction>0:%v efSearch>0:%v ⇒ stored %s is not provably positive", mask&1 != 0, mask&2 != 0, mask&4 != 0, f))
+				}
+			}
+		}
+	}
+	bad = dedup(bad)
+	if len(bad) > 0 {
+		r.Bad(rule, "hnsw:ctor:defaults", site, truncList(bad, 4))
+	} else {
+		r.Ok(rule, "hnsw:ctor:defaults", site, fmt.Sprintf("%d (sign pattern, path) states: stored M, efConstruction and efSearch are positive in all of them", states))
+	}
+}
